@@ -243,6 +243,19 @@ def run(chk, repo, tier):
     f, phs, rets = phasors(repo)
     amp_a, opd_a, mask_a, slice_a, tilt_a = (self_attr(x) for x in ('amplitude', 'opd', 'mask', 'slice', 'tilt'))
     slice_a |= {nf.attr(SELF, '_slice').single_atom()}
+    # what `self.shape` / `self.size` stand for when the properties are followed instead of read as attributes
+    from ..rules import run_snippet
+    shape_vals, size_vals = {nf.attr(SELF, 'shape')}, {nf.attr(SELF, 'size')}
+    try:
+        cont_, _, _ = run_snippet(repo, 'plane', 'x__ = self.shape\ny__ = self.size\n', {'self': SELF},
+                                  types={('sym', 'self'): repo.cls('plane.Plane')})
+        for st_ in cont_:
+            if isinstance(st_.env.get('x__'), (Poly, Tup)):
+                shape_vals.add(st_.env['x__'])
+            if isinstance(st_.env.get('y__'), Poly):
+                size_vals.add(st_.env['y__'])
+    except Exception:
+        pass
     for k, (p, e) in enumerate(phs):
         data = e.bound.get('data')
         off = e.bound.get('offset')
@@ -258,7 +271,7 @@ def run(chk, repo, tier):
         s = ob.get('slice')
         sa = s.single_atom() if isinstance(s, Poly) else None
         n = sa[2] if sa is not None and sa[0] == 'idx' and sa[1] in slice_a else None
-        shape_ok = ob.get('shape') == nf.attr(SELF, 'shape')
+        shape_ok = ob.get('shape') in shape_vals
         desc = f'phasor #{k}'
         has_mask = isinstance(data, Poly) and has_factor(data, is_mask_atom)
         chk.ob('C03-f', 'D-factor', f.key, f'mask is a factor of the phasor [{_variant(data, amp_a, opd_a)}]', has_mask,
@@ -293,7 +306,7 @@ def run(chk, repo, tier):
                not bad and n is not None and shape_ok, '; '.join(bad) or f'slice {fmt(s)}', f.loc(e.node))
         ta = tilt.single_atom() if isinstance(tilt, Poly) else None
         t_ok = ta is not None and ta[0] == 'idx' and ta[1] in tilt_a and isinstance(ta[2], Slice) and ta[2].lo == n \
-            and ta[2].step in (nf.attr(SELF, 'size'),) or (isinstance(tilt, Tup) and len(tilt) == 0)
+            and ta[2].step in size_vals or (isinstance(tilt, Tup) and len(tilt) == 0)
         chk.ob('C03-d', 'D-index', f.key, f'tilt slot of the same segment [{_variant(data, amp_a, opd_a)}]', bool(t_ok),
                f'tilt = {fmt(tilt)}', f.loc(e.node))
 
